@@ -408,11 +408,12 @@ impl<R: Read> Reader<R> {
             }
             RpmPayloadEntry::Cpio(c) => {
                 // names in the archive are relative ("./usr/bin/foo"), paths in the header absolute
+                // (a destination given as "//usr/bin/foo" is archived as ".//usr/bin/foo")
                 let name = c
                     .name
                     .strip_prefix("./")
-                    .or_else(|| c.name.strip_prefix('/'))
-                    .unwrap_or(&c.name);
+                    .unwrap_or(&c.name)
+                    .trim_start_matches('/');
                 file_entries.iter().position(|e| {
                     e.path.strip_prefix("/").unwrap_or(&e.path) == std::path::Path::new(name)
                 })
